@@ -304,6 +304,13 @@ def run(model: RepoModel, rep, tier: str):
     rep.rule("C09.R8", "states, frames and spaces are per instance: a mutable object bound in a class body of the analysis core is a constant table, "
                        "never written through self (what one frame / state / space records would be visible in all others)", 0)
     check_shared_class_state(model, rep, "C09.R8", ["common_structs.py"] + sorted(r for r in model.modules if r.startswith("core/")))
+    from .. import generic4
+    rep.rule("C09.R10", "versions of an object do not share a field set: the accumulating dict helpers (add_to_dict_with_default_set, ...) store a "
+                        "fresh collection under a new key, never the caller's own set that a later contribution would grow in place", 2)
+    generic4.check_helper_stores_copy(model, rep, "C09.R10")
+    rep.rule("C09.R11", "the constant 0 is a value: in the state computations no operand that was converted to a number is then tested for "
+                        "presence by truthiness", 0)
+    generic4.check_truthiness_after_numeric_conversion(model, rep, "C09.R11", ["core/stmt_states.py"])
 
 
 def _r3_call_path_depth(model: RepoModel, rep):
